@@ -210,6 +210,14 @@ where
         steps += 1;
     }
 
+    // Shifting by more than the available precision leaves less than half a unit of the last limb.
+    if steps > size {
+        for j in 0..size {
+            ZNXARI::znx_zero(res.at_mut(res_col, j));
+        }
+        return;
+    }
+
     let (carry, tmp) = tmp[..2 * n].split_at_mut(n);
 
     let lsh: usize = (base2k - k_rem) % base2k;
